@@ -509,12 +509,12 @@ def check_reader(case, rec):
 
 # ----------------------------------------------------------------------------- strategies
 
-HOSTILE_TEXT = st.text(alphabet=st.sampled_from(list("abXY01 _-./") + list("\"'\\#:,=()[]\n\t") + list("é中€😀") + ["\x0b", "\x0c", "\x1c", "\x1d", "\x1e", "\x85", "\u2028", "\u2029", "\x7f"]), max_size=10)
+HOSTILE_TEXT = st.text(alphabet=st.sampled_from(list("abXY01 _-./") + list("\"'\\#:,=()[]\n\t\r") + list("é中€😀") + ["\x0b", "\x0c", "\x1c", "\x1d", "\x1e", "\x85", "\u2028", "\u2029", "\x7f"]), max_size=10)
 PLAIN_TEXT = st.text(alphabet="abcXYZ019_", min_size=1, max_size=8)
 
 
 def strs():
-    return st.one_of(PLAIN_TEXT, HOSTILE_TEXT, st.sampled_from(["", " x", "x ", "C:\\path\\to\\file.csv", 'say "hi"', "it's", "a#b", "\\", "\\\\", "\"", "tab\there", "Ünï", "line\u2028sep", "form\x0cfeed", "nel\x85", "\x1cfs"])).map(
+    return st.one_of(PLAIN_TEXT, HOSTILE_TEXT, st.sampled_from(["", " x", "x ", "C:\\path\\to\\file.csv", 'say "hi"', "it's", "a#b", "\\", "\\\\", "\"", "tab\there", "Thresholds from the 2019 report.\rChecked by hand.", "cr\r\nlf", "\r", "Ünï", "line\u2028sep", "form\x0cfeed", "nel\x85", "\x1cfs"])).map(
         lambda s: {"t": "str", "v": s})
 
 
@@ -573,7 +573,9 @@ def kinds_command(draw, name, earlier, api):
             ref = lambda: {"t": "ref", "name": draw(st.sampled_from(earlier)), "as": "object" if api and draw(st.booleans()) else "name"}
             v = ref() if pn == "R" else {"t": "list", "items": [ref() for _ in range(draw(st.integers(0, 3)))]}
         else:
-            keys = draw(st.lists(st.one_of(PLAIN_TEXT, HOSTILE_TEXT.filter(lambda s: s != "")), max_size=4, unique=True))
+            # (among the keys the ones tools give a meaning to: display name, description, colour)
+            keys = draw(st.lists(st.one_of(PLAIN_TEXT, st.sampled_from(["Description", "DisplayName", "Color", "ShortDescription", "description"]),
+                                           HOSTILE_TEXT.filter(lambda s: s != "")), max_size=4, unique=True))
             # metadata values may be written as numbers; equal numbers of different kind (2 and 2.0, 0 and -0.0, 1 and true) side by side
             numbers = st.sampled_from([2, 2.0, 0, 0.0, -0.0, 1, 1.0, True, False, 1e-05, 10 ** 20, 2.5, -7])
             v = {"t": "dict", "items": [[k, draw(st.one_of(PLAIN_TEXT, HOSTILE_TEXT, numbers, numbers))] for k in keys]}
